@@ -92,6 +92,63 @@ CHECKS = {
         note="Known findings: fb with dtype str/bytes and tfrec with float64 "
         "are accepted but undecodable (known_findings.json).",
         design="DESIGN.md section 3 C18"),
+    "C02": dict(
+        engine="choice+sched+dataset_mc",
+        technique="exhaustive enumeration of every random draw of the "
+        "shuffle helpers (choice-sequence DFS), complete interleaving "
+        "exploration of the lazy pool, and deviation-bounded joint "
+        "exploration (schedules x random draws) of the real dataset "
+        "iterators under a cooperative scheduler",
+        text="(a) all outcomes of shuffle_buffer/round_robin (sync+async, 4 "
+        "source presentations) for n<=6, all buffer sizes; (b) all "
+        "interleavings of the lazy pool; (c) dataset family x 5 interfaces x "
+        "6 shuffle sizes x 4 parallelism values x process_record on the OS "
+        "schedule; (d) concurrent readers with pool/executor threads and "
+        "random draws controlled, deviation bound 1-2 (quick) / 2-3. "
+        "Oracle: multiset of ids == multiset written, process_record "
+        "applied exactly once.",
+        note="tf.data and Rust threads run on the OS schedule at dataset "
+        "level; the cooperative ThreadPoolExecutor is a model of the stdlib "
+        "one.",
+        design="DESIGN.md section 3 C02"),
+    "C03": dict(
+        engine="dataset+dataset_mc+opseq",
+        technique="differential comparison over an enumerated configuration "
+        "space plus enumeration of all batch completion orders of the "
+        "unshuffled concurrent reader under a cooperative executor "
+        "(deviation bounded), plus session-history BFS",
+        text="For every dataset of the family: shuffle=0 sequences of every "
+        "interface x file_parallelism {1,2,S,S+2} x 2 passes x kept/reopened "
+        "handle are identical and list every session in write order; the "
+        "executor path under all completion orders; histories of depth 2 "
+        "with interleaved splits.",
+        note="Rust/tf.data timing not controlled here (C15 explores the Rust "
+        "parallel map).",
+        design="DESIGN.md section 3 C03"),
+    "C14": dict(
+        engine="choice+sched+dataset_mc",
+        technique="read-ahead measured in every state of the exhaustive "
+        "explorations (random draws, lazy-pool interleavings) with a "
+        "differential oracle over stream lengths N,2N,4N,infinite",
+        text="Unit level: all random draws of take-k from shuffle buffer / "
+        "round robin for 4 lengths; lazy pool: every interleaving of early "
+        "exit for n, 2n, infinite sources; dataset level: controlled "
+        "concurrent/sync/async take-k from repeating streams and "
+        "OS-schedule runs of all interfaces (incl. Rust, tf.data) with "
+        "inotify open counts.",
+        note="Generous cap 4(b+T)+8; tf.data only termination.",
+        design="DESIGN.md section 3 C14"),
+    "C19": dict(
+        engine="dataset+dataset_mc",
+        technique="enumeration of configuration space over stream prefixes of "
+        "3 epochs + deviation-bounded exploration of random draws and pool "
+        "interleavings on repeating streams",
+        text="Default (repeating) streams of every interface x shuffle x "
+        "parallelism over the dataset family: first 3N+2 elements all from "
+        "the split; unshuffled periodic; Rust epochs are permutations; "
+        "abandon/re-enter Rust streams.",
+        note="prefixes only; tf.data/Rust on the OS schedule.",
+        design="DESIGN.md section 3 C19"),
 }
 
 NOT_YET = "check not built yet in this session (planned, see DESIGN.md section 3)"
@@ -149,6 +206,15 @@ def main() -> None:
              "serves_properties": ["C10", "C11", "C18"],
              "kind_free_text": "all write_example sequences inside one "
                                "filler context, oracles on decoded files"},
+            {"name": "choice", "path": "vf/itertools_mc.py",
+             "serves_properties": ["C02", "C14"],
+             "kind_free_text": "every random draw of the real shuffle "
+                               "helpers is an explorer choice"},
+            {"name": "dataset_mc", "path": "vf/dataset_mc.py",
+             "serves_properties": ["C02", "C03", "C14", "C19", "C07"],
+             "kind_free_text": "real dataset iterators with lazy pool / "
+                               "executor threads under the cooperative "
+                               "scheduler and random draws as choices"},
             {"name": "sched", "path": "vf/sched.py + vf/lazypool_mc.py",
              "serves_properties": ["C13", "C14", "C02", "C07"],
              "kind_free_text": "cooperative scheduler + choice-sequence DFS "
